@@ -10,8 +10,9 @@ for d in sorted(glob.glob('/verif/seeded/C*/*/')):
     if len(summ)>150: summ=summ[:147]+'...'
     if res.get('error'): verdict='patch error'
     elif res.get('check_note','').startswith('property has no check'): verdict='no check (property not claimed)'
-    elif res.get('caught'): verdict='caught: '+', '.join('`'+f.split('.')[-1]+'`' for f in res.get('failed_obligations',[])[:2])
-    else: verdict='**missed by quick**'
+    elif res.get('caught'): verdict='caught: '+', '.join('`'+f.split('/')[-1]+'`' for f in res.get('failed_obligations',[])[:2])
+    elif res.get('thorough_caught'): verdict='**missed by quick**; thorough: caught by bounded stand-in `'+res.get('thorough_by','')+'` with a failing input'
+    else: verdict='**missed by quick**'+('; also missed by thorough' if 'thorough_caught' in res else '')
     rows.append(f"| {m.group(1)}/{m.group(2)} | {summ} | {'yes' if res.get('demo_confirmed') else 'NO'} | {verdict} |")
 tbl="<!-- seeded-table-begin -->\n| change | what was changed (sub-agent's summary) | demo confirmed | quick check of that property |\n|---|---|---|---|\n"+"\n".join(rows)+"\n<!-- seeded-table-end -->"
 p='/verif/DESIGN.md'; s=open(p).read()
